@@ -27,6 +27,16 @@ CHECKS = {
              "splits equals it; every triple is replayed through the real function (1e-9), and real results for random "
              "generic angles/axis lengths are quantised and checked by TLC against the three clauses.",
         design="5/C20"),
+    "C18": dict(
+        engine="ParamTables",
+        technique="TLA+ parameter-table spec (ordered-pair dictionaries refine unordered-pair tables) model-checked by TLC; "
+                  "witness line sequences replayed into Parameters.parse_line; shipped tables trace-validated by TLC",
+        text="TLC explores every parameter-line sequence up to 5/6 lines over 3 keys (matrix rows incl. wrong lengths and "
+             "repeated keys, pair entries, defaults, plain and squared cut-offs) and checks symmetry, fall-back, square "
+             "linkage and refinement; for every distinct reachable table state a witness file is parsed by the real code "
+             "and all look-ups compared; the real tables of the working tree's propka.cfg are dumped and checked by TLC "
+             "for every ordered pair of creatable group types.",
+        design="5/C18"),
 }
 
 NOT_APPLICABLE = {}
